@@ -146,13 +146,13 @@ def run(ctx):
     ctx.rule = (
         "every canonical tree over 1..3 data points with every outlier subset (exhaustive: 2+7+42 trees, the all-outlier and "
         "single-clone trees included) x {unclustered, clustered with integer cluster ids and a cluster file holding one more cluster} "
-        "x 1..3 samples, each as a one-entry trace file processed by the real write_map_results, write_topology_report(+archive) and "
+        "x 1..3 samples x {as built, relabelled}, each as a one-entry trace file processed by the real write_map_results, write_topology_report(+archive) and "
         "write_consensus_results; plus seeded multi-tree traces for the consensus command (clones with empty data) and, in thorough, "
         "random trees over 4-5 points and relabelled copies; oracle = the statement on the parsed TSV/Newick; model = Model/Table.v "
         "evaluated on the labelled tree and the real CCF dictionaries; non-trivial = the tree has >= 1 clone or >= 2 points; "
         "distinct = (tree, clustered, samples)"
     )
-    ctx.exhaustive = True
+    ctx.exhaustive = False  # exhaustive over single trees on <= 3 points; the multi-tree consensus traces and larger trees are seeded samples
     cmds = [("map", "joint-likelihood"), ("topo", "all"), ("cons", 0.5, "counts")]
     if not ctx.quick:
         cmds += [("map", "frequency"), ("cons", 0.5, "joint-likelihood")]
